@@ -260,6 +260,23 @@ pub struct ValueString {
     pub v: String,
 }
 
+/// list of structs that themselves have struct-typed fields (many nested-struct fields in one
+/// document without deep nesting)
+#[derive(Serialize, Deserialize, PartialEq, Debug, Clone)]
+pub struct Row {
+    #[serde(rename = "@id")]
+    pub id: u8,
+    pub cell: Inner,
+    #[serde(skip_serializing_if = "Option::is_none", default)]
+    pub opt: Option<Inner>,
+}
+#[derive(Serialize, Deserialize, PartialEq, Debug, Clone)]
+pub struct Rows {
+    #[serde(default)]
+    pub row: Vec<Row>,
+    pub last: Inner,
+}
+
 // ---------------------------------------------------------------------------------------------
 // tagged union
 
@@ -315,6 +332,7 @@ family! {
     Tree(Tree),
     TextBool(TextBool),
     ValueString(ValueString),
+    Rows(Rows),
 }
 
 // ---------------------------------------------------------------------------------------------
@@ -380,8 +398,17 @@ pub fn any_string() -> impl Strategy<Value = String> {
         1 => "[a-zA-Z0-9_.-]{1,8}",
     ];
     prop_oneof![
-        1 => Just(String::new()),
-        8 => prop::collection::vec(piece, 1..7).prop_map(|v| v.concat()),
+        4 => Just(String::new()),
+        32 => prop::collection::vec(piece.clone(), 1..7).prop_map(|v| v.concat()),
+        // long payloads: past the block sizes of the scanners and the initial buffer capacities
+        1 => (prop::collection::vec(piece, 1..4), prop::sample::select(vec![16usize, 17, 31, 33, 64, 65, 100, 129, 300])).prop_map(|(v, n)| {
+            let unit = v.concat();
+            let mut out = String::new();
+            while out.chars().count() < n {
+                out.push_str(if unit.is_empty() { "x" } else { &unit });
+            }
+            out
+        }),
     ]
 }
 
@@ -437,11 +464,18 @@ pub fn inner() -> impl Strategy<Value = Inner> {
 }
 
 /// lists: empty / singleton / longer
-fn list<S: Strategy>(item: S) -> impl Strategy<Value = Vec<S::Value>>
+fn list<S: Strategy + 'static>(item: S) -> impl Strategy<Value = Vec<S::Value>>
 where
     S::Value: Clone + std::fmt::Debug,
 {
-    prop::collection::vec(item, 0..5)
+    let item = item.boxed();
+    prop_oneof![
+        200 => prop::collection::vec(item.clone(), 0..5),
+        // long lists: many sibling elements / many xs:list items
+        4 => prop::collection::vec(item.clone(), 20..70),
+        // more than 128 / 256 items (counters, u8 arithmetic, depth-like bookkeeping per item)
+        1 => prop::collection::vec(item, 120..200),
+    ]
 }
 
 pub fn choice(allow_text: bool) -> BoxedStrategy<Choice> {
@@ -475,7 +509,16 @@ pub fn mixed_items() -> impl Strategy<Value = Vec<Choice>> {
 
 fn tree(depth: u32) -> BoxedStrategy<Tree> {
     let leaf = any::<u8>().prop_map(|v| Tree { v, child: vec![] });
-    leaf.prop_recursive(depth, 24, 3, |inner| (any::<u8>(), prop::collection::vec(inner, 0..4)).prop_map(|(v, child)| Tree { v, child })).boxed()
+    let bushy = leaf.prop_recursive(depth, 24, 3, |inner| (any::<u8>(), prop::collection::vec(inner, 0..4)).prop_map(|(v, child)| Tree { v, child }));
+    // deep chains (depth 20..=60): many open elements at once
+    let chain = (20usize..=60, any::<u8>()).prop_map(|(d, v)| {
+        let mut t = Tree { v, child: vec![] };
+        for k in 0..d {
+            t = Tree { v: v.wrapping_add(k as u8), child: if k % 7 == 3 { vec![Tree { v: 1, child: vec![] }, t] } else { vec![t] } };
+        }
+        t
+    });
+    prop_oneof![20 => bushy, 1 => chain].boxed()
 }
 
 pub fn val_of(ty: Ty) -> BoxedStrategy<Val> {
@@ -507,6 +550,7 @@ pub fn val_of(ty: Ty) -> BoxedStrategy<Val> {
         Ty::Tree => tree(4).prop_map(Val::Tree).boxed(),
         Ty::TextBool => any::<bool>().prop_map(|text| Val::TextBool(TextBool { text })).boxed(),
         Ty::ValueString => (any::<u8>(), elem_string()).prop_map(|(k, v)| Val::ValueString(ValueString { k, v })).boxed(),
+        Ty::Rows => (list((any::<u8>(), inner(), prop::option::of(inner())).prop_map(|(id, cell, opt)| Row { id, cell, opt })), inner()).prop_map(|(row, last)| Val::Rows(Rows { row, last })).boxed(),
     }
 }
 
